@@ -627,8 +627,14 @@ func (c *specCtx) call(x *SExpr) *SVal {
 		v := c.value(c.eval(x.Args[0]))
 		switch {
 		case v.T.S.IsSlice():
+			if c.st != nil && !strings.Contains(v.T.String(), "!q") && !strings.Contains(v.T.String(), "!l") {
+				c.st.Assume(Ge(Acc(v.T, "len"), IntLit(0)))
+			}
 			return &SVal{T: Acc(v.T, "len"), Ty: types.Typ[types.Int]}
 		case v.T.S.IsMap():
+			if c.st != nil && !strings.Contains(v.T.String(), "!q") && !strings.Contains(v.T.String(), "!l") {
+				c.st.Assume(Implies(Eq(Acc(v.T, "card"), IntLit(0)), Eq(Acc(v.T, "dom"), ConstArr(v.T.S.Fields[1].S, False))))
+			}
 			return &SVal{T: Acc(v.T, "card"), Ty: types.Typ[types.Int]}
 		case v.T.S == StrSort:
 			DeclFunc("str.len", IntSort, StrSort)
